@@ -1,4 +1,5 @@
 import SpecKitV.Lemmas.Sinusoid
+import SpecKitV.Lemmas.Calib0
 import SpecKitV.Props.AttrsA
 
 #print axioms segDFT_raw_toC
@@ -7,6 +8,11 @@ import SpecKitV.Props.AttrsA
 #print axioms power_spectrum_calibrated
 #print axioms winT_le_sum
 #print axioms winT_zero
+#print axioms segDFT_order0_eq
+#print axioms sinusoid_mean_bound
+#print axioms calibration_bound_order0
+#print axioms power_spectrum_calibrated_order0
+#print axioms ps_of_segment_bound
 #print axioms Gxx_def
 #print axioms Gxy_def
 #print axioms enbw_def
